@@ -758,6 +758,28 @@ impl Session {
                     tasks.push(json!({"tid":tid,"state":state.to_string(),"exiting": flags & 4 != 0}));
                 }
             }
+            // a thread that was just resumed from its exit stop runs for a moment before the kernel
+            // marks it as exiting: look again before calling a task "running at a stop"
+            for _ in 0..5 {
+                let unsettled = tasks.iter().any(|t| !matches!(t["state"].as_str(), Some("t") | Some("Z") | Some("X")) && t["exiting"] != true);
+                if !unsettled {
+                    break;
+                }
+                std::thread::sleep(std::time::Duration::from_millis(3));
+                tasks.clear();
+                if let Ok(rd) = std::fs::read_dir(format!("/proc/{pid}/task")) {
+                    for t in rd.flatten() {
+                        let tid: i32 = t.file_name().to_string_lossy().parse().unwrap_or(0);
+                        let st = std::fs::read_to_string(t.path().join("stat")).unwrap_or_default();
+                        let rest = st.rsplit(") ").next().unwrap_or("");
+                        let state = rest.chars().next().unwrap_or('?');
+                        let flags: u64 = rest.split_whitespace().nth(6).and_then(|f| f.parse().ok()).unwrap_or(0);
+                        if state != '?' {
+                            tasks.push(json!({"tid":tid,"state":state.to_string(),"exiting": flags & 4 != 0}));
+                        }
+                    }
+                }
+            }
             o.insert("tasks".into(), json!(tasks));
             // the debugger's own thread list
             match dbg.thread_state() {
